@@ -18,4 +18,6 @@ bool write_poly(const OpenVolumeMesh::GeometricPolyhedralMeshV3d &m, std::string
 }
 bool is_tet_file(const std::string &path) { OpenVolumeMesh::IO::FileManager fm; fm.setVerbosityLevel(0); return fm.isTetrahedralMesh(path); }
 bool is_hex_file(const std::string &path) { OpenVolumeMesh::IO::FileManager fm; fm.setVerbosityLevel(0); return fm.isHexahedralMesh(path); }
+bool write_poly_file(const OpenVolumeMesh::GeometricPolyhedralMeshV3d &m, const std::string &path) { OpenVolumeMesh::IO::FileManager fm; fm.setVerbosityLevel(0); return fm.writeFile(path, m); }
+bool read_poly_file(const std::string &path, bool topo_check, bool bottom_up, OpenVolumeMesh::GeometricPolyhedralMeshV3d &m) { OpenVolumeMesh::IO::FileManager fm; fm.setVerbosityLevel(0); return fm.readFile(path, m, topo_check, bottom_up); }
 }  // namespace ascii_shim
